@@ -18,6 +18,9 @@ func BabeDigest(primary bool, authIdx uint32, slot uint64) types.Digest {
 	var err error
 	if primary {
 		pd, err = types.NewBabePrimaryPreDigest(authIdx, slot, [sr25519.VRFOutputLength]byte{}, [sr25519.VRFProofLength]byte{}).ToPreRuntimeDigest()
+	} else if slot%2 == 1 {
+		// BABE has two kinds of secondary claims; both are "not primary" for the fork choice
+		pd, err = types.NewBabeSecondaryVRFPreDigest(authIdx, slot, [sr25519.VRFOutputLength]byte{}, [sr25519.VRFProofLength]byte{}).ToPreRuntimeDigest()
 	} else {
 		pd, err = types.NewBabeSecondaryPlainPreDigest(authIdx, slot).ToPreRuntimeDigest()
 	}
